@@ -69,8 +69,9 @@ where
     // for now, write this as a type alias; we may want to change this to a newtype
     // in the future
     if let Some(comment) = comment {
-        for line in comment.split('\n') {
-            writeln!(writer, "/// {line}")?;
+        // one doc line per line of text; a carriage return may not appear inside a doc comment
+        for line in comment.lines() {
+            writeln!(writer, "/// {}", line.replace('\r', " "))?;
         }
     }
 
@@ -143,8 +144,9 @@ where
     let rust_name = xml_name_to_rust_name(xml_name);
 
     if let Some(comment) = comment {
-        for line in comment.split('\n') {
-            writeln!(writer, "/// {line}")?;
+        // one doc line per line of text; a carriage return may not appear inside a doc comment
+        for line in comment.lines() {
+            writeln!(writer, "/// {}", line.replace('\r', " "))?;
         }
     }
 
